@@ -52,6 +52,20 @@ impl DependencyGraph {
   }
 }
 
+#[cfg(samlang_verif)]
+impl DependencyGraph {
+  /// Verification hook (C10): the forward and reverse edge maps as plain data.
+  #[allow(clippy::type_complexity)]
+  pub(super) fn verif_edges(
+    &self,
+  ) -> (Vec<(ModuleReference, Vec<ModuleReference>)>, Vec<(ModuleReference, Vec<ModuleReference>)>) {
+    let dump = |g: &HashMap<ModuleReference, HashSet<ModuleReference>>| {
+      g.iter().map(|(k, v)| (*k, v.iter().copied().collect_vec())).collect_vec()
+    };
+    (dump(&self.forward), dump(&self.reverse))
+  }
+}
+
 // TODO: incremental rebuild of dependency graph
 
 #[cfg(test)]
